@@ -8,7 +8,8 @@ THEOREM_NOTE = ("Props/C10.lean: a waiting call ends released only after a signa
 ASSUMPTIONS = ASSUME_SESSION
 RULE = ("[thorough tier adds the small-scope exhaustive enumeration of harness/gen/exhaustive.py: every loop program with a <= 2-action and a <= 1-action handler over a 10-action alphabet, 3 663 programs] loop-mode programs with waits nested in handlers (wait inside wait, non-waiting inside waiting and vice versa), several simultaneous waiters on one class, the awaited "
         "signal dispatched by an inner call; generic loop/app sessions; oracle: between entry and normal return of process_signals(return_after=C) a handler of class C ran or "
-        "the level was stopped; the non-waiting form dispatches one priority only and never blocks; non-trivial = a waiting call that returned")
+        "the level was stopped; the non-waiting form dispatches one priority only and never blocks; non-trivial = a waiting call that returned"
+        ' Later rounds: waits whose awaited signal is dispatched one or two nested loops further down; oracle: a wait that is still blocked although the awaited class was dispatched and the handler finished.')
 
 
 def gen_c10(rnd, sid):
